@@ -244,7 +244,7 @@ func runEnv(r *vf.Run, c *tcase, e *envSpec, ei int) {
 	// With the db store and an explicit root entry the decision is taken after the
 	// self-child probe below (see skipBG).
 	probeFirst := e.store == "db" && c.rootEntry
-	if e.prefetchEarly && !probeFirst {
+	if e.prefetchEarly && !probeFirst && !e.tiny {
 		startPrefetch() // fs.Mount: "go l.Prefetch(...)" before Verify
 	}
 	if err := l.Verify(c.built.TOCDigest); err != nil {
@@ -302,11 +302,14 @@ func runEnv(r *vf.Run, c *tcase, e *envSpec, ei int) {
 	// if "." resolves, Prefetch/BackgroundFetch are only started for tiny trees in the plain
 	// build (so that the error class stays visible in the evidence) and skipped otherwise.
 	// Once the defect is repaired the probe answers ENOENT and nothing is skipped.
-	skipBG := false
+	skipBG := e.tiny
+	if e.tiny {
+		r.Count("prefetch_and_background_fetch_skipped(tiny registry chunk)", 1)
+	}
 	if probeFirst {
 		if _, _, errno := root2.Lookup("."); errno == 0 {
 			r.Count("db_root_self_child_observed", 1)
-			if r.RaceBuild || len(c.paths) > 12 || !rngE.Chance(1, 2) {
+			if r.RaceBuild || len(c.paths) > 12 || c.chunk > 4096 || !rngE.Chance(1, 2) {
 				skipBG = true
 				r.Count("prefetch_and_background_fetch_skipped(db self child)", 1)
 			}
